@@ -335,7 +335,8 @@ T2 = tsfmt.instant_of("2017-01-01T00:00:00.123456Z")
 T3 = tsfmt.instant_of("2018-01-01T00:00:00Z")
 PRIMS = [("int", 1), ("int", -1), ("int", 0), ("float", 1.5), ("float", -0.5), ("str", "a"), ("str", "it's"), ("str", "back\\slash"), ("str", "both\\'"), ("str", "ü😀"), ("str", ""),
          ("str", "\\\\host\\share"), ("bool", True), ("bool", False), ("hex", "ab"), ("bin", "YQ=="), ("ts", T1), ("ts", T2), ("ts", T1, "2017-01-01T00:00:00.000Z")]
-SETS = [("set", (("int", 1), ("int", 2))), ("set", (("str", "a"), ("str", "b'c"))), ("set", (("int", 1),)), ("set", (("ts", T1), ("ts", T3)))]
+SETS = [("set", (("int", 1), ("int", 2))), ("set", (("str", "a"), ("str", "b'c"))), ("set", (("int", 1),)), ("set", (("ts", T1), ("ts", T3))),
+        ("set", (("int", 1), ("str", "x"))), ("set", (("bool", True), ("int", 1), ("float", 1.5))), ("set", (("hex", "ab"), ("hex", "aa"))), ("set", (("str", "a"), ("ts", T1)))]
 PATHS = [(("key", "p"),), (("key", "p"), ("key", "q")), (("key", "p"), ("idx", 1)), (("key", "p"), ("idx", "*"), ("key", "q")), (("key", "p_ref"), ("key", "q")),
          (("key", "k-k"),), (("key", "hashes"), ("key", "SHA-256")), (("key", "hashes"), ("key", "MD5")), (("key", "k k"),), (("key", "k.k"),), (("key", "p"), ("key", "it's")),
          (("key", "p"), ("idx", 1), ("idx", 2)), (("key", "p"), ("idx", 10), ("key", "q"), ("idx", "*"))]
